@@ -1360,6 +1360,111 @@ package gocql
 //@   ensures !(host.dataCenter != d.localDC) ==> same(d.hosts[2].list.v, old(d.hosts[2].list.v))
 
 // ---------------------------------------------------------------------------
+// prepared statements (C14): prepared_cache.go, conn.go prepareStatement / executeQuery
+// ---------------------------------------------------------------------------
+
+// the session-wide cache never holds more entries than configured (proved inductive in internal/lru)
+//@ predicate plru_bound(p): p.lru != nil && (p.lru.cache != nil && p.lru.MaxEntries > 0 ==> p.lru.ll.len <= p.lru.MaxEntries)
+
+//@ func (p *preparedLRU) add
+//@   props C14
+//@   requires plru_bound(p)
+//@   ensures plru_bound(p)
+
+//@ func (p *preparedLRU) remove
+//@   props C14
+//@   requires plru_bound(p)
+//@   ensures plru_bound(p)
+
+//@ func (p *preparedLRU) clear
+//@   props C14
+//@   requires plru_bound(p)
+//@   ensures plru_bound(p)
+//@   loop 0: invariant plru_bound(p)
+
+// lookup-or-insert under the cache lock: the creator runs only on a miss, and exactly once
+//@ func (p *preparedLRU) execIfMissing
+//@   props C14
+//@   count_calls fn Get
+//@   requires p.lru != nil && plru_bound(p)
+// everything stored in this cache is a non-nil *inflightPrepare (add/execIfMissing are the only writers)
+//@   assume_after Get: Get_ret1 ==> typeis(Get_ret0, *inflightPrepare) && unbox(Get_ret0, *inflightPrepare) != nil
+//@   before Get: same(arg1, key)
+//@   before fn: arg0 == p.lru
+//@   ensures Get_calls == 1
+//@   ensures result1 ==> fn_calls == 0
+//@   ensures !result1 ==> fn_calls == 1 && result0 == fn_ret0
+//@   ensures result1 ==> result0 != nil
+//@   ensures plru_bound(p) || fn_calls == 1
+
+// UNPREPARED from the server: the entry is dropped only when its PREPARE has finished and the id
+// the server does not know is the cached one (a newer PREPARE of the same statement stays).
+// Assumption: a finished entry found in the cache has a statement (a failed PREPARE removes its
+// entry before it signals completion).
+//@ func (p *preparedLRU) evictPreparedID
+//@   props C14
+//@   count_calls Get Remove Equal
+//@   requires p.lru != nil && plru_bound(p)
+//@   assume_after Get: Get_ret1 && typeis(Get_ret0, *inflightPrepare) ==> unbox(Get_ret0, *inflightPrepare) != nil && unbox(Get_ret0, *inflightPrepare).done != nil && unbox(Get_ret0, *inflightPrepare).preparedStatment != nil
+//@   before Remove: same(arg1, key) && Equal_calls == 1 && Equal_ret0
+//@   before Equal: same(arg0, id) && same(arg1, unbox(Get_ret0, *inflightPrepare).preparedStatment.id)
+//@   ensures plru_bound(p) && Remove_calls <= 1
+
+//@ func (recv Tracer) Trace
+//@   interface
+//@   trusted a tracer reads the trace tables; it does not write connection, session or statement-cache state
+//@   preserves_types Conn Session preparedLRU inflightPrepare preparedStatment Cache List Element framer Query
+
+//@ func (p *preparedLRU) keyFor
+//@   props C14
+//@   modifies nothing
+
+//@ func copyBytes
+//@   props C14
+//@   modifies nothing
+//@   ensures len(result) == len(p) && forall(k, 0 <= k && k < len(p), result[k] == p[k])
+
+// Single flight: one lookup-or-insert under the key of (host id, keyspace, statement); only the
+// caller that inserted the entry starts a PREPARE (one goroutine), everybody then waits for the
+// entry's completion or the own context.
+// Glue assumption: on a miss the entry returned is the one the creator closure made - execIfMissing
+// is proved to return the creator's result, the creator (prepareStatement$1) is proved to return
+// a fresh, unfinished entry; the two are joined by assume_after.
+//@ func (c *Conn) prepareStatement
+//@   props C14
+//@   count_calls keyFor execIfMissing go
+//@   requires c.session != nil && c.session.stmtsLRU != nil && c.host != nil && ctx != nil && plru_bound(c.session.stmtsLRU)
+//@   before keyFor: same(arg1, c.host.hostId) && same(arg2, c.currentKeyspace) && same(arg3, stmt)
+//@   before execIfMissing: keyFor_calls == 1 && same(arg1, keyFor_ret0)
+//@   assume_after execIfMissing: !execIfMissing_ret1 ==> execIfMissing_ret0 != nil && execIfMissing_ret0.done != nil && execIfMissing_ret0.err == nil && execIfMissing_ret0.preparedStatment == nil
+//@   assume_after execIfMissing: plru_bound(c.session.stmtsLRU) && c.session != nil && c.session.stmtsLRU != nil
+//@   ensures execIfMissing_calls == 1 && go_calls <= 1 && (go_calls == 1) == !execIfMissing_ret1
+
+// the creator run under the cache lock on a miss: a fresh in-flight entry, published under the key
+//@ func (c *Conn) prepareStatement$1
+//@   props C14
+//@   count_calls Add
+//@   requires lru != nil && (lru.cache != nil && lru.MaxEntries > 0 ==> lru.ll.len <= lru.MaxEntries)
+//@   ensures lru.cache != nil && lru.MaxEntries > 0 ==> lru.ll.len <= lru.MaxEntries
+//@   before Add: arg0 == lru && same(arg1, *stmtCacheKey) && typeis(arg2, *inflightPrepare) && unbox(arg2, *inflightPrepare) == flight
+//@   ensures Add_calls == 1 && result != nil && fresh(result) && result.done != nil && result.err == nil && result.preparedStatment == nil
+
+// the winner's PREPARE, in its own goroutine on the connection's context: the waiters are released
+// in every case (deferred close); a failure is recorded and the entry removed (not cached); a
+// success records the id (copied), request and response metadata of *this* PREPARE's answer
+//@ func (c *Conn) prepareStatement$2
+//@   props C14
+//@   count_calls exec parseFrame preparedLRU.remove
+//@   requires *c != nil && (*c).session != nil && (*c).session.stmtsLRU != nil && *flight != nil && (*flight).done != nil && plru_bound((*c).session.stmtsLRU)
+//@   requires (*flight).err == nil && (*flight).preparedStatment == nil
+//@   before exec: arg1 == (*c).ctx
+//@   before preparedLRU.remove: same(arg1, *stmtCacheKey)
+//@   ensures exec_calls == 1
+//@   ensures (*flight).err != nil ==> preparedLRU_remove_calls == 1 && (*flight).preparedStatment == nil
+//@   ensures (*flight).err == nil ==> preparedLRU_remove_calls == 0 && (*flight).preparedStatment != nil
+//@   ensures closed((*flight).done)
+
+// ---------------------------------------------------------------------------
 // ring.go (C16): the three indexes of the ring (by id, by node-to-node address, ordered list)
 // ---------------------------------------------------------------------------
 
